@@ -287,3 +287,79 @@ def gcov_reference(dirpath, have_gcda):
             lines[n] = lines.get(n, 0) + cnt if n in lines else cnt
         out[src or f[:-5]] = {"lines": lines, "funcs": funcs}
     return out
+
+
+def goto_program(rng, nlabels=None):
+    """A state machine whose 4-8 labels all sit on ONE source line, joined by random forward/backward gotos guarded
+    by conditions on a step counter (every label visit increments it and leaves when it exceeds a limit, so the
+    program terminates).  Several blocks on one line connected by interleaved (non-reducible) cycles."""
+    k = nlabels or rng.randrange(4, 9)
+    limit = rng.randrange(5, 40)
+    conds = ["(c % {0}) == {1}".format(m, rng.randrange(0, m)) for m in (2, 3, 4, 5)] + \
+            ["(c & 2)", "c < n", "(c + n) & 1", "c > {0}".format(limit // 2), "n > 2"]
+    parts = []
+    for i in range(k):
+        p = "L{0}: c++; if (c > {1}) goto END;".format(i, limit)
+        for _ in range(rng.randrange(1, 3)):
+            p += " if ({0}) goto L{1};".format(rng.choice(conds), rng.randrange(0, k))
+        if rng.random() < 0.5:
+            p += " s += {0};".format(rng.randrange(1, 5))
+        parts.append(p)
+    line = " ".join(parts) + " goto L{0};".format(rng.randrange(0, k))
+    src = ("#include <stdlib.h>\n"
+           "int g(int n) { int c = 0, s = 0;\n"
+           "  %s\n"
+           "END: return s; }\n"
+           "int main(int argc, char **argv) { return g(argc > 1 ? atoi(argv[1]) : 3) & 0; }\n").replace("%s", line)
+    return {"t.c": src}
+
+
+# Witness of the known finding C08/single-line-goto-cycles: four labels on one line; with argument 2 llvm-cov-14 gcov
+# reports line 3 executed 5 times, grcov 4 times (1 entry + 4 resp. 3 cycles: the circulation among the line's blocks
+# decomposes into cycles in more than one way).
+GOTO_WITNESS = ({"t.c": '#include <stdlib.h>\nint g(int n) { int c = 0, s = 0;\n  L0: c++; if (c > 11) goto END; if ((c % 5) == 4) goto L1; s += 4; L1: c++; if (c > 11) goto END; if ((c & 2)) goto L3; L2: c++; if (c > 11) goto END; if ((c & 2)) goto L0; if ((c % 5) == 4) goto L3; L3: c++; if (c > 11) goto END; if (c < n) goto L0; if ((c % 2) == 0) goto L1; goto L2;\nEND: return s; }\nint main(int argc, char **argv) { return g(argc > 1 ? atoi(argv[1]) : 3) & 0; }\n'}, [["2"]], 3)
+
+
+def ambiguous_cycle_count(arcs, trials=60):
+    """arcs: list of (src, dst, count) among the blocks of ONE line.  Decompose the flow into cycles greedily
+    (find a cycle in the residual graph, subtract its minimum, repeat) with `trials` deterministic pseudo-random
+    search orders; True when the total multiplicity differs between two decompositions, i.e. 'entries + cycles' is
+    not determined by the arc counts (interleaved / non-reducible cycles)."""
+    import random
+
+    def total(seed):
+        rnd = random.Random(seed)
+        cap = {}
+        for s_, d_, c_ in arcs:
+            if c_ > 0 and s_ != d_:
+                cap[(s_, d_)] = cap.get((s_, d_), 0) + c_
+        tot = sum(c_ for s_, d_, c_ in arcs if s_ == d_)
+        nodes = sorted({x for e in cap for x in e})
+        while True:
+            found = None
+            order = nodes[:]
+            if seed:
+                rnd.shuffle(order)
+            for start in order:
+                stack, seen = [(start, [])], set()
+                while stack and found is None:
+                    v, path = stack.pop()
+                    succ = sorted(d_ for (s_, d_), c_ in cap.items() if s_ == v and c_ > 0)
+                    if seed:
+                        rnd.shuffle(succ)
+                    for d_ in succ:
+                        if d_ == start:
+                            found = path + [(v, d_)]
+                            break
+                        if d_ not in seen:
+                            seen.add(d_)
+                            stack.append((d_, path + [(v, d_)]))
+                if found:
+                    break
+            if not found:
+                return tot
+            m = min(cap[e] for e in found)
+            for e in found:
+                cap[e] -= m
+            tot += m
+    return len({total(seed) for seed in range(trials)}) > 1
